@@ -80,7 +80,7 @@ function* textModules(items, prefix, hostOf) {
   }
 }
 
-const CHILD_KINDS = ['text', 'textWs', 'textMulti', 'expr', 'exprStr', 'empty', 'comment', 'spread', 'spreadEmpty', 'el', 'frag', 'elWithKids'];
+const CHILD_KINDS = ['text', 'textWs', 'textMulti', 'expr', 'exprStr', 'empty', 'comment', 'spread', 'spreadEmpty', 'el', 'frag', 'elWithKids', 'litNull', 'litBool', 'litNum', 'litStr', 'undef'];
 function makeChild(b, rng, kind, st) {
   switch (kind) {
     case 'text': return C.text(`w${st.n++}`);
@@ -88,6 +88,11 @@ function makeChild(b, rng, kind, st) {
     case 'textMulti': return C.text(`\n    line${st.n++}\n    more  \n  `);
     case 'expr': { const g = b.global({ k: 'sent' }); return C.expr(b.leaf(g), g); }
     case 'exprStr': { const f = b.fnGlobal({ k: 'str', v: `r${st.n++}` }); return C.expr(b.leaf(`${f}()`), `${f}()`); }
+    case 'litNull': return C.expr(b.leaf('null'), 'null');
+    case 'litBool': { const v = rng.pick(['true', 'false']); return C.expr(b.leaf(v), v); }
+    case 'litNum': return C.expr(b.leaf('0'), '0');
+    case 'litStr': return C.expr(b.leaf('""'), '""');
+    case 'undef': return C.expr(b.leaf('undefined'), 'undefined');
     case 'empty': return C.empty();
     case 'comment': return C.comment();
     case 'spread': { const g = b.global({ k: 'arr', v: [{ k: 'str', v: `sp${st.n++}` }, { k: 'sent' }] }); return C.spread(b.leaf(g), g); }
@@ -237,7 +242,7 @@ export async function check(group, records) {
 export function meta({ tier }) {
   const L = tier === 'quick' ? 4 : 5;
   return {
-    rule: `G-TEXT: every string of length 1..${L} over a 13-symbol whitespace alphabet {space, tab, LF, CR, CRLF, NBSP, &nbsp;, U+2003, U+3000, U+2028, a, b, &amp;} as JSX text in 5 positions (only child, before/after/between expression containers, between elements), 100 per module, plus seeded random strings of length 4..12; G-CHILD: all child-kind sequences of length <= ${tier === 'quick' ? 3 : 4} over 12 child kinds on 5 hosts (element, <>, <Fragment>, KeepAlive, custom element) plus random longer ones. distinct_nontrivial = distinct (position, host, symbol-class string) resp. (host, child-kind sequence).`,
+    rule: `G-TEXT: every string of length 1..${L} over a 13-symbol whitespace alphabet {space, tab, LF, CR, CRLF, NBSP, &nbsp;, U+2003, U+3000, U+2028, a, b, &amp;} as JSX text in 5 positions (only child, before/after/between expression containers, between elements), 100 per module, plus seeded random strings of length 4..12; G-CHILD: all child-kind sequences of length <= ${tier === 'quick' ? 3 : 4} over 17 child kinds on 5 hosts (element, <>, <Fragment>, KeepAlive, custom element) plus random longer ones. distinct_nontrivial = distinct (position, host, symbol-class string) resp. (host, child-kind sequence).`,
     exhaustive: [`all strings of length <= ${L} over the 12-symbol alphabet x 5 positions`],
     assumptions: ['reference = the standard JSX text rule quoted in the statement, applied to the decoded text', 'a text of only spaces/tabs without a line break may be kept or dropped (both accepted)', 'entities that decode to ASCII whitespace are not generated'],
   };
